@@ -104,6 +104,11 @@ fn main() {
             let n: usize = n.trim().parse().unwrap_or(0);
             let rows: Vec<Vec<String>> = (0..n).map(|i| vec![format!("r{}", i)]).collect();
             serde_json::json!({ "result": rows })
+        } else if let Some(n) = sql.strip_prefix("desc ") {
+            // descending: the order the "database" returns differs from the sorted order
+            let n: usize = n.split_whitespace().next().and_then(|s| s.parse().ok()).unwrap_or(0);
+            let rows: Vec<Vec<String>> = (0..n).rev().map(|i| vec![format!("r{}", i)]).collect();
+            serde_json::json!({ "result": rows })
         } else if sql.starts_with("fail") {
             serde_json::json!({ "err": "boom" })
         } else if sql.starts_with("refuse") {
